@@ -4,7 +4,7 @@ Applies the patch to /repo, runs ./check <prop> quick, undoes the patch. Prints 
 import subprocess, sys, os, time
 VERIF = os.path.dirname(os.path.dirname(os.path.abspath(__file__)))
 def main():
-    patch, props = sys.argv[1], sys.argv[2:]
+    patch, props = os.path.abspath(sys.argv[1]), sys.argv[2:]
     assert subprocess.run(["git", "-C", "/repo", "status", "--porcelain"], capture_output=True, text=True).stdout.strip() == "", "/repo not clean"
     subprocess.run(["git", "-C", "/repo", "apply", patch], check=True)
     try:
